@@ -191,6 +191,8 @@ type World struct {
 	StepCheck func(w *World) string
 	Abort     string
 	HT        *server.Honeytrap
+	TmpDir  string
+	PreBoot func(dir string)
 	// Custom executes engine-specific op kinds (emit, frame, ...)
 	Custom func(w *World, actor int, op Op)
 }
@@ -266,6 +268,10 @@ func (w *World) bootServer(cfg string) error {
 	smtp.DefaultServeMux = smtp.NewServeMux()
 	ipp.VerifResetModel()
 	dir := w.T.TempDir()
+	w.TmpDir = dir
+	if w.PreBoot != nil {
+		w.PreBoot(dir)
+	}
 	cfg = strings.ReplaceAll(cfg, "@TMP@", dir)
 	path := filepath.Join(dir, "config.toml")
 	if err := os.WriteFile(path, []byte(cfg), 0644); err != nil {
